@@ -438,14 +438,9 @@ func (p *Path) convert(x Value, from, to types.Type, site ssa.Instruction) Value
 					if xv.Conc {
 						return FloatV{Conc: true, F: float64(float32(xv.F))}
 					}
-					if fb, ok := fu.(*types.Basic); ok && fb.Kind() == types.Float32 {
-						return xv
-					}
-					return p.floatStub("f64to32", xv)
+					return p.narrow32(xv)
 				}
-				if fb, ok := fu.(*types.Basic); ok && fb.Kind() == types.Float32 && !xv.Conc {
-					return p.floatStub("f32to64", xv)
-				}
+				// float32 -> float64 is exact: same value
 				return xv
 			case IntV:
 				if c, ok := xv.T.Int64(); ok {
@@ -642,5 +637,16 @@ func (p *Path) rangeNext(it *RangeIter, in *ssa.Next) Value {
 	}
 	r := TupleV{E: []Value{mkBool(true), mkInt(int64(it.Pos)), IntV{T: b, Small: true}}}
 	it.Pos++
+	return r
+}
+
+// narrow32: float64 -> float32 conversion of an opaque float. A value already
+// known to be float32-representable is unchanged.
+func (p *Path) narrow32(x FloatV) FloatV {
+	if x.Bits == 32 {
+		return x
+	}
+	r := p.floatStub("f64to32", x)
+	r.Bits = 32
 	return r
 }
